@@ -26,6 +26,8 @@ impl ServiceTargetActor {
         loop {
             if self.helper.should_execute(ExecutionKind::Service) {
                 self.helper.set_execution_started();
+                #[cfg(zinoma_verif)]
+                crate::verif::emit("service_begin", &self.helper.target_id.to_string(), &[]);
 
                 match self.restart_service().await {
                     Ok(()) => self.helper.notify_success(ExecutionKind::Service).await,
@@ -33,13 +35,31 @@ impl ServiceTargetActor {
                 }
             }
 
+            #[cfg(zinoma_verif)]
+            crate::verif::emit(
+                "idle",
+                &self.helper.target_id.to_string(),
+                &[
+                    ("st", self.helper.verif_snapshot()),
+                    ("running", self.service_process.is_some().to_string()),
+                ],
+            );
+
             // TODO Catch service execution failures
             futures::select! {
                 _ = self.helper.termination_events.next().fuse() => break,
                 _ = self.helper.target_invalidated_events.next().fuse() => {
+                    #[cfg(zinoma_verif)]
+                    crate::verif::emit("wake_inval", &self.helper.target_id.to_string(), &[]);
                     self.helper.notify_invalidated(ExecutionKind::Service).await
                 }
                 message = self.helper.target_actor_input_receiver.next().fuse() => {
+                    #[cfg(zinoma_verif)]
+                    crate::verif::emit(
+                        "recv",
+                        &self.helper.target_id.to_string(),
+                        &[("msg", message.as_ref().unwrap().verif_json())],
+                    );
                     match message.unwrap() {
                         ActorInputMessage::Ok { kind, target_id, .. } => {
                             self.helper.unavailable_dependencies.get_mut(&kind).unwrap().remove(&target_id);
@@ -79,7 +99,11 @@ impl ServiceTargetActor {
             }
         }
 
+        #[cfg(zinoma_verif)]
+        crate::verif::emit("wake_term", &self.helper.target_id.to_string(), &[]);
         self.stop_service().await;
+        #[cfg(zinoma_verif)]
+        crate::verif::emit("actor_exit", &self.helper.target_id.to_string(), &[]);
     }
 
     async fn stop_service(&mut self) {
@@ -87,12 +111,16 @@ impl ServiceTargetActor {
             let target_id = self.target.metadata.id.clone();
             let mut running_service = self.service_process.take().unwrap();
             log::trace!("{} - Stopping service", target_id);
+            #[cfg(zinoma_verif)]
+            let pid = running_service.id();
             if let Err(e) = running_service.kill() {
                 log::warn!("{} - Failed to kill service: {}", target_id, e);
             }
             if let Err(e) = running_service.status().await {
                 log::warn!("{} - Failed to await killed service: {}", target_id, e);
             }
+            #[cfg(zinoma_verif)]
+            crate::verif::emit("svc_stopped", &target_id.to_string(), &[("pid", pid.to_string())]);
         }
     }
 
@@ -108,6 +136,13 @@ impl ServiceTargetActor {
         let service_process = command
             .spawn()
             .with_context(|| "Failed to start service".to_string())?;
+
+        #[cfg(zinoma_verif)]
+        crate::verif::emit(
+            "svc_started",
+            &self.target.metadata.id.to_string(),
+            &[("pid", service_process.id().to_string())],
+        );
 
         self.service_process = Some(service_process);
 
